@@ -414,16 +414,19 @@ theorem findAllEnd_init (D : List (List Nat)) (hD : D.length = 2) (p t : List Na
     have e2' : Rs.add 64 1 p.length = Res.ok (p.length + 1) := by rw [Nat.add_comm]; exact Rs.add_ok (by omega)
     have e3 : Rs.add 64 (min k p.length) 1 = Res.ok (min k p.length + 1) := Rs.add_ok (by omega)
     have e3' : Rs.add 64 1 (min k p.length) = Res.ok (min k p.length + 1) := by rw [Nat.add_comm]; exact Rs.add_ok (by omega)
+    -- `k.saturating_add(1)` (proposed fix C09-ukkonen-maxk-overflow) is `k + 1` inside the hypotheses
+    have e1s : Rs.saturatingAdd 64 k 1 = k + 1 := by simp only [Rs.saturatingAdd]; omega
+    have e3s : Rs.saturatingAdd 64 (min k p.length) 1 = min k p.length + 1 := by simp only [Rs.saturatingAdd]; omega
     have e4 : Nat.min k p.length = min k p.length := rfl
     have e4' : Nat.min p.length k = min k p.length := Nat.min_comm _ _
     have e5 : min (min k p.length) p.length = min k p.length := by omega
     first
       | refine ⟨k, Or.inl rfl, ?_⟩
-        simp [Gen.SrcUkkonen.findAllEnd, Rs.idx, Rs.setIdx, Rs.resize, e1, e1', e2, e2', e3, e3', e4, e4', e5, Dof, two, init,
+        simp [Gen.SrcUkkonen.findAllEnd, Rs.idx, Rs.setIdx, Rs.resize, e1, e1', e1s, e2, e2', e3, e3', e3s, e4, e4', e5, Dof, two, init,
           List.range_eq_range']
         done
       | refine ⟨min k p.length, Or.inr rfl, ?_⟩
-        simp [Gen.SrcUkkonen.findAllEnd, Rs.idx, Rs.setIdx, Rs.resize, e1, e1', e2, e2', e3, e3', e4, e4', e5, Dof, two, init,
+        simp [Gen.SrcUkkonen.findAllEnd, Rs.idx, Rs.setIdx, Rs.resize, e1, e1', e1s, e2, e2', e3, e3', e3s, e4, e4', e5, Dof, two, init,
           List.range_eq_range']
         done
 
